@@ -128,6 +128,10 @@ def run_impl(sc):
         return c12.copy_attach_probe(sc)
     if sc.get("probe") == "mixin_parent":
         return mixin_parent_probe()
+    if sc.get("probe") == "shared_enum":
+        return shared_enum_probe()
+    if sc.get("probe") == "reused_listener":
+        return reused_listener_probe()
     if sc.get("probe") == "threads_overlap":
         return engfam.probe_threads_overlap(sc)
     alone = eng.run_impl(sc)
@@ -152,6 +156,96 @@ def run_impl(sc):
     def strip(o):
         return [{k: v for k, v in x.items() if k in ("out", "field", "allowed", "log")} for x in o]
     return {"obs": inter, "same": strip(alone) == strip(inter)}
+
+
+def shared_enum_probe():
+    """two unrelated machine classes whose states come from the SAME Enum (same options), with different
+    transitions: each class has its own states and events - what one declares never shows on the other"""
+    import enum
+    from statemachine import StateMachine
+    from statemachine.exceptions import TransitionNotAllowed
+    from statemachine.states import States
+
+    class Phase(enum.Enum):
+        draft = 1
+        review = 2
+        done = 3
+    bad = []
+    with warnings.catch_warnings():
+        warnings.simplefilter("ignore")
+
+        class First(StateMachine):
+            states = States.from_enum(Phase, initial=Phase.draft, final=Phase.done)
+            submit = states.draft.to(states.review)
+            approve = states.review.to(states.done)
+
+        class Second(StateMachine):
+            states = States.from_enum(Phase, initial=Phase.draft, final=Phase.done)
+            skip = states.draft.to(states.done)
+            submit = states.draft.to(states.review)
+            reject = states.review.to(states.draft) | states.review.to(states.done)
+        a = First()
+        try:
+            got = sorted(str(e) for e in a.allowed_events)
+        except Exception as e:  # noqa: BLE001
+            got = repr(e)
+        if got != ["submit"]:
+            bad.append(f"First().allowed_events = {got}")
+        try:
+            a.send("skip")
+            bad.append("First accepted the event `skip` that only Second declares")
+        except TransitionNotAllowed:
+            pass
+        except Exception as e:  # noqa: BLE001
+            bad.append(repr(e))
+        if sorted(str(e) for e in First.events) != ["approve", "submit"]:
+            bad.append(f"First.events = {sorted(str(e) for e in First.events)}")
+    return {"probe": "shared_enum", "bad": bad}
+
+
+def reused_listener_probe():
+    """one listener object attached to a machine, then given new callback / guard attributes, then attached
+    to a second machine: the second machine sees the object as it is now (what the first one saw does not matter)"""
+    from statemachine import State, StateMachine
+    from statemachine.exceptions import TransitionNotAllowed
+    calls = []
+
+    class Lst:
+        def after_go(self):
+            calls.append("after_go")
+
+    class One(StateMachine):
+        a = State(initial=True)
+        b = State()
+        go = a.to(b) | b.to(a)
+
+    class Two(StateMachine):
+        a = State(initial=True)
+        b = State()
+        go = a.to(b, cond="cleared") | b.to(a)
+    bad = []
+    with warnings.catch_warnings():
+        warnings.simplefilter("ignore")
+        lst = Lst()
+        one = One(listeners=[lst])
+        one.send("go")
+        lst.cleared = False                      # a guard the second machine needs
+        lst.on_enter_b = lambda: calls.append("enter_b")
+        del calls[:]
+        try:
+            two = Two(listeners=[lst])
+        except Exception as e:  # noqa: BLE001
+            return {"probe": "reused_listener", "bad": [f"second machine could not be created: {e!r}"]}
+        try:
+            two.send("go")
+            bad.append("guard on the listener ignored")
+        except TransitionNotAllowed:
+            pass
+        lst.cleared = True
+        two.send("go")
+        if sorted(calls) != ["after_go", "enter_b"]:
+            bad.append(f"callbacks of the listener on the second machine: {calls}")
+    return {"probe": "reused_listener", "bad": bad}
 
 
 def mixin_parent_probe():
@@ -265,6 +359,10 @@ def render_source(sc):
         return "# probe: a listener attached to only one of a machine and its shallow / deep copy (see harness/c12.py)\n"
     if sc.get("probe") == "threads_overlap":
         return "# probe: " + " ".join(engfam.probe_threads_overlap.__doc__.split()) + "\n"
+    if sc.get("probe") == "shared_enum":
+        return "# probe: " + " ".join(shared_enum_probe.__doc__.split()) + "\n"
+    if sc.get("probe") == "reused_listener":
+        return "# probe: " + " ".join(reused_listener_probe.__doc__.split()) + "\n"
     if sc.get("probe") == "mixin_parent":
         return "# probe: MachineMixin model classes DraftModel (DraftFlow) and ReviewModel(DraftModel) (ReviewFlow)\n"
     if sc.get("probe") == "d21":
@@ -298,6 +396,8 @@ def generate(rng, tier):
     scs.append({"probe": "d13"})
     scs.append({"probe": "d21"})
     scs.append({"probe": "mixin_parent"})
+    scs.append({"probe": "shared_enum"})
+    scs.append({"probe": "reused_listener"})
     scs.append({"probe": "threads_overlap"})
     for k in range(4):
         scs.append({"probe": "copy_attach", "seed": rng.randrange(10 ** 6), "first": "copy", "side": "copy", "shared_list": True})
